@@ -21,6 +21,8 @@ WITNESS = {
 
 def second_config(ctx, prop, run, need_ws):
     crates = core.extract(workspace=need_ws, extra_rustflags="-C overflow-checks=off -C debug-assertions=off")
+    from . import props as _props
+    _props.normalise(crates)
     ctx2 = engine.Ctx(prop, crates, "thorough")
     R2 = roles_mod.Roles(ctx2)
     run(ctx2, R2)
